@@ -19,6 +19,12 @@ fn wrap(w: u64, t: &str) -> String {
         4 => format!("Dictionary<int32, {t}>"),
         5 => format!("Dictionary<{t}, int32>"),
         6 => format!("Result<{t}, bool>"),
+        7 => format!("Result<Sequence<bool>, {t}?>"),
+        // wrappers inside wrappers
+        10 => format!("Sequence<Sequence<{t}>>"),
+        11 => format!("Dictionary<string, Sequence<{t}>>"),
+        12 => format!("Sequence<Result<{t}, string>>"),
+        13 => format!("Result<Sequence<{t}>?, int32>"),
         _ => format!("Result<Sequence<bool>, {t}?>"),
     }
 }
@@ -144,6 +150,30 @@ pub fn render_text(case: &Value) -> String {
         }
 }
 
+/// the event of a containment graph from the errors of (one module of) its compilation
+fn contain_event(case: &Value, n: u64, errors: &[&slicec::diagnostics::Diagnostic]) -> Value {
+    let pairs: Vec<Value> = case["edges"].as_array().cloned().unwrap_or_default().iter().map(|e| json!([e["a"], e["b"]])).collect();
+    let mut codes: Vec<String> = errors.iter().map(|d| d.code().to_owned()).collect();
+    codes.sort();
+    codes.dedup();
+    let mut reported = Vec::new();
+    let mut unparsed = 0;
+    for d in errors.iter().filter(|d| d.code() == "E032") {
+        // "... : M::T1 -> M::T2 -> M::T1": the chain is what follows the last ": "
+        let msg = d.message();
+        let chain: Vec<Option<u64>> = msg.rsplit(": ").next().unwrap_or("").split(" -> ").map(node_index).collect();
+        if chain.iter().any(|c| c.is_none()) || chain.is_empty() {
+            unparsed += 1;
+            continue;
+        }
+        let chain: Vec<u64> = chain.into_iter().flatten().collect();
+        // the type the diagnostic is attached to: its span is the definition's
+        reported.push(json!({"root": chain[0], "chain": chain, "notes": d.notes().len()}));
+    }
+    json!({"ev": "contain", "n": n, "edges": pairs, "reported": reported, "unparsed": unparsed, "accepted": errors.is_empty(),
+           "cycle_errors": errors.iter().filter(|d| d.code() == "E032").count(), "codes": codes})
+}
+
 impl Family for Cycles {
     fn run(&mut self, case: &Value) -> Outcome {
         let family = case["family"].as_str().unwrap_or("");
@@ -151,33 +181,26 @@ impl Family for Cycles {
         let text = render_text(case);
         let key = hash_str(&text);
         let rendered = json!({"text": text});
-        let state = slicec::compile_from_strings(&[&text], None);
+        // a third of the containment graphs is compiled together with its twin: the same definitions, same names, in module N
+        // (a second file) - every module has its own cycles, and each gets its own event
+        let twin = family == "contain" && (key >> 6) % 3 == 0;
+        let twin_text = text.replacen("module M", "module N", 1);
+        let state = if twin { slicec::compile_from_strings(&[&text, &twin_text], None) } else { slicec::compile_from_strings(&[&text], None) };
         let diags = state.into_diagnostics(&Default::default());
-        let errors: Vec<&slicec::diagnostics::Diagnostic> = diags.iter().filter(|d| d.level() == DiagnosticLevel::Error).collect();
+        let all_errors: Vec<&slicec::diagnostics::Diagnostic> = diags.iter().filter(|d| d.level() == DiagnosticLevel::Error).collect();
+        if twin {
+            // the errors of module N (its file is string-1) as an event of their own
+            let errors: Vec<&slicec::diagnostics::Diagnostic> = all_errors.iter().filter(|d| d.span().map(|s| s.file == "string-1").unwrap_or(false)).copied().collect();
+            emit_event("cycles", &contain_event(case, n, &errors));
+        }
+        let errors: Vec<&slicec::diagnostics::Diagnostic> = if twin { all_errors.iter().filter(|d| d.span().map(|s| s.file != "string-1").unwrap_or(true)).copied().collect() } else { all_errors };
         let accepted = errors.is_empty();
         let pairs: Vec<Value> = case["edges"].as_array().cloned().unwrap_or_default().iter().map(|e| json!([e["a"], e["b"]])).collect();
         let mut codes: Vec<String> = errors.iter().map(|d| d.code().to_owned()).collect();
         codes.sort();
         codes.dedup();
         let ev = match family {
-            "contain" => {
-                let mut reported = Vec::new();
-                let mut unparsed = 0;
-                for d in errors.iter().filter(|d| d.code() == "E032") {
-                    // "... : M::T1 -> M::T2 -> M::T1": the chain is what follows the last ": "
-                    let msg = d.message();
-                    let chain: Vec<Option<u64>> = msg.rsplit(": ").next().unwrap_or("").split(" -> ").map(node_index).collect();
-                    if chain.iter().any(|c| c.is_none()) || chain.is_empty() {
-                        unparsed += 1;
-                        continue;
-                    }
-                    let chain: Vec<u64> = chain.into_iter().flatten().collect();
-                    // the type the diagnostic is attached to: its span is the definition's
-                    reported.push(json!({"root": chain[0], "chain": chain, "notes": d.notes().len()}));
-                }
-                json!({"ev": "contain", "n": n, "edges": pairs, "reported": reported, "unparsed": unparsed, "accepted": accepted,
-                       "cycle_errors": errors.iter().filter(|d| d.code() == "E032").count(), "codes": codes})
-            }
+            "contain" => contain_event(case, n, &errors),
             "alias" => {
                 let mut e019: Vec<u64> = errors
                     .iter()
